@@ -229,7 +229,19 @@ pub fn real_rcu(u: Rc<Unimock>, x: u8) -> u64 {
 #[unimock(api = FmtTMock)]
 pub trait FmtT: std::fmt::Debug + std::fmt::Display {
     fn show(&self, x: u8) -> String {
-        format!("{x}:{:?}|{}", self, self)
+        fmt_show(self, x)
+    }
+}
+
+/// what `FmtT::show` does with `self` (and what a caller holding the mock can do directly): Debug and
+/// Display with argument-dependent format specifications (alternate flag, width, alignment)
+#[cfg(feature = "stdworld")]
+pub fn fmt_show<T: std::fmt::Debug + std::fmt::Display + ?Sized>(t: &T, x: u8) -> String {
+    match x & 3 {
+        0 => format!("{x}:{:?}|{}", t, t),
+        1 => format!("{x}:{:#?}|{:>6}", t, t),
+        2 => format!("{x}:{:?}|{:<5}|", t, t),
+        _ => format!("{x}:{:#?}|{:^7}|", t, t),
     }
 }
 
